@@ -697,7 +697,7 @@ fn families(l: &Lang, thorough: bool) -> Acc {
     {
         let (level1, level2, arity) = fn_nesting_calls();
         for call in level1.iter().chain(level2.iter()).chain(arity.iter()) {
-            for c in [format!("$[?{}]", call), format!("$[?!{}]", call), format!("$[?{}==1]", call), format!("$[?true!={}]", call), format!("$[?({})||@.z]", call), format!("$[?{}=={}]", call, call)] {
+            for c in [format!("$[?1==2&&{}]", call), format!("$[?'a'!='a'&&({})]", call), format!("$[?1==1||{}]", call), format!("$[?{}]", call), format!("$[?!{}]", call), format!("$[?{}==1]", call), format!("$[?true!={}]", call), format!("$[?({})||@.z]", call), format!("$[?{}=={}]", call, call)] {
                 l.examine(&mut acc, &c, "family: function nestings", true);
             }
         }
@@ -768,6 +768,18 @@ fn families(l: &Lang, thorough: bool) -> Acc {
                     format!("{}", arg),
                 ] {
                     l.examine(&mut acc, &format!("$[?{}]", call), "family: slices and indices in function arguments", true);
+                }
+            }
+        }
+    }
+    // bracketed selections inside filters inside bracketed selections (the conversion of the outer list is suspended
+    // while the inner one is converted)
+    {
+        let inner = ["@[0,1]", "@['a','b']", "@[1:2,0]", "count(@[0,1])==2", "@[?@[0,1]]", "@[0,?@[1,2],3]", "$[0,1]", "@[0,1][2,3]"];
+        for a in inner {
+            for b in inner {
+                for c in [format!("$[0,?{},1]", a), format!("$[?{},?{}]", a, b), format!("$['x',?{}&&{},2:3]", a, b), format!("$..[?{},*,?{}]", a, b), format!("$[?{}][?{},0]", a, b)] {
+                    l.examine(&mut acc, &c, "family: selections nested in filters nested in selections", true);
                 }
             }
         }
